@@ -1,9 +1,11 @@
 (* C07 -- standard Monte-Carlo price, error and control-variate adjustment are textbook.
    Only statements; proofs in Proofs/C07_McStats.v, model in Model/McStats.v.
+   Models: Model/McStats.v (loop, statistics, 1-2 controls), Model/McCv.v (any number of controls), Model/McStdFull.v (both loop
+   branches, spot statistics, n = 0 / 1, get_variance); proofs in Proofs/C07_McStats.v, C07_CvGeneral.v, C07_StdFull.v.
    The model follows the repaired tree (fix-mc: dee7ba4 mc_stddev divides by sqrt(shape[0]);
    f813372 every control is centred on its own price; fix-mc3 aaa3e1f scale-relative degenerate-control guard). *)
-From Coq Require Import List ZArith QArith Qabs Bool.
-From RV Require Import Base.QB Model.McStats Proofs.C07_StatsLemmas Proofs.C07_McStats.
+From Coq Require Import List ZArith QArith Qabs Bool Lia Permutation.
+From RV Require Import Base.QB Model.McStats Model.McCv Proofs.C07_StatsLemmas Proofs.C07_McStats Proofs.C07_CvGeneral Model.McStdFull Proofs.C07_StdFull.
 Import ListNotations.
 Open Scope Q_scope.
 
@@ -73,6 +75,134 @@ Theorem C07_cv_variance_with_code_b :
         Cn n (cv_adj (b_star2 n X Y) p X Y) (cv_adj (b_star2 n X Y) p X Y) <= Cn n Y Y).
 Proof. exact cv_variance_with_code_b. Qed.
 
+(* ------------------------------------------------------------------ ANY number k of controls (Model/McCv.v) *)
+(* b* IS the sample regression coefficient: a solution b of the normal equations minimises the sample variance of
+   Y - b'.(X - p') over all coefficient vectors b' of that length and all centring prices;
+   var(adj b') = var(adj b) + var((b' - b).X).  (b' = 0 gives var(adj) <= var Y again.) *)
+Theorem C07_cv_optimal_any_k :
+  forall n, (0 < n)%nat -> forall X Y b p b' p', normal_eq n b X Y -> length b' = length b ->
+    Cn n (cv_adj b' p' X Y) (cv_adj b' p' X Y)
+    == Cn n (cv_adj b p X Y) (cv_adj b p X Y) + Cn n (Zlin (vsub b' b) X) (Zlin (vsub b' b) X)
+    /\ Cn n (cv_adj b p X Y) (cv_adj b p X Y) <= Cn n (cv_adj b' p' X Y) (cv_adj b' p' X Y).
+Proof. exact cv_optimal. Qed.
+
+(* for every k and every sample the normal equations have a solution (Sigma_XY is in the range of Sigma_X, also for
+   collinear controls): the least-squares problem np.linalg.lstsq solves is consistent, its minimiser is an exact solution *)
+Theorem C07_normal_equations_solvable :
+  forall n, (0 < n)%nat -> forall X k Y, exists b, length b = k /\ normal_eq n b X Y.
+Proof. exact normal_eq_solvable. Qed.
+
+(* the specification of lstsq (solution of the normal equations of minimal norm on the correlation scale, written without
+   square roots: Sigma b = Sigma_XY and diag(Sigma) b = Sigma w) determines b uniquely, collinear controls or not *)
+Theorem C07_lstsq_spec_unique :
+  forall n, (0 < n)%nat -> forall X Y b w b' w',
+    lstsq_spec n b w X Y -> lstsq_spec n b' w' X Y -> length b = length b' ->
+    (forall j, (j < length b)%nat -> 0 < Cn n (X j) (X j)) ->
+    forall j, (j < length b)%nat -> nth j b 0 == nth j b' 0.
+Proof. exact lstsq_spec_unique. Qed.
+
+(* composed, for the b of the code (code_b: guard, else lstsq by specification), k controls: never more variance than the raw
+   sample; when the guard does not fire, the least variance among all coefficient vectors, and b is unique *)
+Theorem C07_cv_code_b_any_k :
+  forall n k b p X Y, (0 < n)%nat -> code_b n k b X Y ->
+    Cn n (cv_adj b p X Y) (cv_adj b p X Y) <= Cn n Y Y
+    /\ (any_degenerate n k X = false ->
+        (forall b' p', length b' = k -> Cn n (cv_adj b p X Y) (cv_adj b p X Y) <= Cn n (cv_adj b' p' X Y) (cv_adj b' p' X Y))
+        /\ (forall b', code_b n k b' X Y -> forall j, (j < k)%nat -> nth j b 0 == nth j b' 0)).
+Proof. exact cv_code_b_general. Qed.
+
+(* the boolean check the vm_compute correspondence evaluates on every replayed run implies code_b *)
+Theorem C07_code_b_check_sound : forall n k b w X Y, code_bb n k b w X Y = true -> code_b n k b X Y.
+Proof. exact code_bb_sound. Qed.
+
+(* non-vacuity: three COLLINEAR controls {forward, call K=3, put K=3} (forward = call - put + 3) on five paths, payoff call K=2:
+   Sigma_X is singular (null vector (1,-1,1)), the specification is met by b = (441/1240, 861/1240, -21/124) *)
+Definition ex_xs : list (list Q) := [[1; 0; 2]; [2; 0; 1]; [3; 0; 0]; [4; 1; 0]; [6; 3; 0]].
+Definition ex_y : list Q := [0; 0; 1; 2; 4].
+Example C07_three_collinear_controls :
+  code_bb 5 3 [441 # 1240; 861 # 1240; -21 # 124] [-29631 # 62000; 83139 # 62000; 0] (tabX ex_xs) (tabY ex_y) = true
+  /\ (forall j, (j < 3)%nat -> sigma_row 5 (tabX ex_xs) [1; -1; 1] j == 0)
+  /\ Cn 5 (cv_adj [441 # 1240; 861 # 1240; -21 # 124] (fun _ => 0) (tabX ex_xs) (tabY ex_y))
+          (cv_adj [441 # 1240; 861 # 1240; -21 # 124] (fun _ => 0) (tabX ex_xs) (tabY ex_y)) < Cn 5 (tabY ex_y) (tabY ex_y).
+Proof. split; [vm_compute; reflexivity|]. split; [|vm_compute; reflexivity].
+  intros j Hj. destruct j as [|[|[|j]]]; [vm_compute; reflexivity..|]. exfalso. lia. Qed.
+
+(* ------------------------------------------------------------------ both branches of the loop, spot statistics, n = 0 / 1, get_variance
+   (Model/McStdFull.v) *)
+(* the callback of the multi-process branch (and the single-process loop, its instance): for ALL orders / chunkings / repetitions
+   `its` of the delivered results, every assignment sigma of draws to iteration indices and every np.empty content, row it of
+   the payoff statistics is df*notional*payoff(path_(sigma it)), row it of the spot statistics (when on) is the spot of the same path *)
+Theorem C07_merge_any_order :
+  forall payoff path df notional spot_on its sigma g1 g2 n,
+    length g1 = n -> length g2 = n -> Forall (fun it => (it < n)%nat) its -> (forall k, (k < n)%nat -> In k its) ->
+    let s := mc_engine payoff path df notional spot_on its sigma g1 g2 in
+    st_pay s = map (fun it => std_row payoff path df notional (sigma it)) (seq 0 n)
+    /\ st_spot s = (if spot_on then Some (map (fun it => [path (sigma it)]) (seq 0 n)) else None).
+Proof. exact merge_any_order. Qed.
+
+(* if the pool hands every draw to exactly one iteration index, the multi-process rows are a permutation of the single-process
+   rows (each path exactly once) and price(), mc_stddev()^2 are the same numbers, per component *)
+Theorem C07_multiprocess_same_statistics :
+  forall payoff path df notional spot_on its sigma g1 g2 g1' g2' n d j,
+    length g1 = n -> length g2 = n -> length g1' = n -> length g2' = n ->
+    Forall (fun it => (it < n)%nat) its -> (forall k, (k < n)%nat -> In k its) ->
+    Permutation (map sigma (seq 0 n)) (seq 0 n) -> (j < d)%nat ->
+    let rows := st_pay (mc_engine payoff path df notional spot_on its sigma g1 g2) in
+    let rows1 := st_pay (mc_engine payoff path df notional spot_on (seq 0 n) (fun i => i) g1' g2') in
+    Permutation rows rows1
+    /\ nth j (price_reported d rows) 0 == nth j (price_reported d rows1) 0
+    /\ (forall e e1, mc_stddev2_reported d rows = Some e -> mc_stddev2_reported d rows1 = Some e1 ->
+          (2 <= n)%nat -> nth j e 0 == nth j e1 0)
+    /\ (mc_stddev2_reported d rows = None <-> mc_stddev2_reported d rows1 = None).
+Proof. exact multiprocess_same_statistics. Qed.
+
+(* price, error^2 and variance are functions of each column as a multiset *)
+Theorem C07_statistics_permutation_invariant :
+  forall d rows rows' j, Permutation rows rows' -> (j < d)%nat ->
+    nth j (std_price d rows) 0 == nth j (std_price d rows') 0
+    /\ nth j (mc_var_repaired d rows) 0 == nth j (mc_var_repaired d rows') 0
+    /\ nth j (map var_unbiased (columns d rows)) 0 == nth j (map var_unbiased (columns d rows')) 0.
+Proof. exact stats_perm. Qed.
+
+(* mc_paths = 0: price() is 0 per component, mc_stddev() has no value (AttributeError), get_variance() has none (nan);
+   mc_paths = 1: price() is the single discounted payoff, mc_stddev() and get_variance() are the single number 0 *)
+Theorem C07_engine_small_n :
+  forall payoff path df notional spot_on g1 g2 d j,
+    (forall i, length (payoff (path i)) = d) -> (j < d)%nat ->
+    (length g1 = 0%nat -> length g2 = 0%nat ->
+       let rows := st_pay (mc_engine payoff path df notional spot_on (seq 0 0) (fun i => i) g1 g2) in
+       rows = [] /\ nth j (price_reported d rows) 0 == 0 /\ length (price_reported d rows) = d
+       /\ mc_stddev2_reported d rows = None /\ get_variance_reported d rows = None)
+    /\ (length g1 = 1%nat -> length g2 = 1%nat ->
+       let rows := st_pay (mc_engine payoff path df notional spot_on (seq 0 1) (fun i => i) g1 g2) in
+       rows = [std_row payoff path df notional 0%nat]
+       /\ nth j (price_reported d rows) 0 == df * notional * nth j (payoff (path 0%nat)) 0
+       /\ mc_stddev2_reported d rows = Some [0] /\ get_variance_reported d rows = Some [0]).
+Proof. exact engine_small_n. Qed.
+
+(* n >= 2: get_variance() is the unbiased sample variance per component and mc_stddev()^2 is get_variance() / n *)
+Theorem C07_get_variance_textbook :
+  forall d rows j, (j < d)%nat -> (2 <= length rows)%nat ->
+    exists v e, get_variance_reported d rows = Some v /\ mc_stddev2_reported d rows = Some e
+      /\ length v = d /\ length e = d
+      /\ nth j v 0 == (Qsum (map sq (column j rows)) - qlen rows * sq (mean (column j rows))) / (qlen rows - 1)
+      /\ nth j e 0 == nth j v 0 / qlen rows.
+Proof. exact get_variance_textbook. Qed.
+
+(* non-vacuity: 3 paths handed out by a pool as sigma = (2,0,1), results delivered in the order 1,2,0,1 (one repeated), spot on *)
+Example C07_two_process_run :
+  let s := mc_engine (fun x => [x; x - 1]) (fun k => inject_Z (Z.of_nat k) + 1) 1 1 true [1; 2; 0; 1]%nat
+                     (fun it => nth it [2; 0; 1]%nat 0%nat) [[7; 7]; [7; 7]; [7; 7]] [[7]; [7]; [7]] in
+  st_pay s = [[3; 2]; [1; 0]; [2; 1]] /\ st_spot s = Some [[3]; [1]; [2]]
+  /\ Permutation (map (fun it => nth it [2; 0; 1]%nat 0%nat) (seq 0 3)) (seq 0 3)
+  /\ price_reported 2 (st_pay s) = [2; 1] /\ opt_close 0 (get_variance_reported 2 (st_pay s)) (Some [1; 1]) = true
+  /\ opt_close 0 (mc_stddev2_reported 2 (st_pay s)) (Some [1 # 3; 1 # 3]) = true.
+Proof. split; [vm_compute; reflexivity|]. split; [vm_compute; reflexivity|]. split.
+  - simpl. apply Permutation_sym. apply (perm_trans (l' := [1; 0; 2]%nat)); [apply perm_swap|].
+    apply (perm_trans (l' := [1; 2; 0]%nat)); [apply perm_skip, perm_swap|]. apply (perm_trans (l' := [2; 1; 0]%nat)); [apply perm_swap|].
+    apply perm_skip. apply perm_swap.
+  - split; [vm_compute; reflexivity|]. split; vm_compute; reflexivity. Qed.
+
 (* non-vacuity / behaviour before the repair of mc_stddev (F-C07-1): two paths, two components *)
 Example C07_error_vector_before_repair :
   let rows := [[0; 0]; [2; 2]] in
@@ -81,10 +211,23 @@ Proof. exact error_vector_before_repair. Qed.
 
 Print Assumptions C07_price_is_df_mean.
 Print Assumptions C07_repricing_uses_own_paths.
+Print Assumptions C07_keeping_the_buffers_is_wrong.
 Print Assumptions C07_error_per_component.
 Print Assumptions C07_cv_mean.
 Print Assumptions C07_cv_variance.
 Print Assumptions C07_cv_fallback_is_raw.
 Print Assumptions C07_cv_bstar_solves_normal_equations.
 Print Assumptions C07_cv_variance_with_code_b.
+Print Assumptions C07_cv_optimal_any_k.
+Print Assumptions C07_normal_equations_solvable.
+Print Assumptions C07_lstsq_spec_unique.
+Print Assumptions C07_cv_code_b_any_k.
+Print Assumptions C07_code_b_check_sound.
+Print Assumptions C07_three_collinear_controls.
+Print Assumptions C07_merge_any_order.
+Print Assumptions C07_multiprocess_same_statistics.
+Print Assumptions C07_statistics_permutation_invariant.
+Print Assumptions C07_engine_small_n.
+Print Assumptions C07_get_variance_textbook.
+Print Assumptions C07_two_process_run.
 Print Assumptions C07_error_vector_before_repair.
